@@ -1,6 +1,7 @@
 -------------------------- MODULE SupportedOpsTrace --------------------------
-(* Code -> spec: each line is one compiled case {t, c: case record, observed: "NPU" | "CPU" | "FAIL", unchanged}
-   ("FAIL": the compiler produced no output model for the one-operator network).
+(* Code -> spec: each line is one compiled case {t, c: case record, observed: "NPU" | "CPU" | "FAIL" | "LOST", unchanged}
+   ("FAIL": the compiler produced no output model; "LOST": the operator is neither preserved nor explained by an
+   ethos-u operator of the output model).
    TLC recomputes what the report says about the case (Expect, from the constants parsed out of the report the
    working tree generated) and compares it with where the compiler put the operator. *)
 EXTENDS SupportedOps, Json, IOUtils
@@ -14,6 +15,7 @@ Failures(e) ==
       (IF x = "NPU" /\ e.observed = "CPU" THEN {<<e.t, "SatisfiesButCpu", {}>>} ELSE {})
  \cup (IF x = "CPU" /\ e.observed = "NPU" THEN {<<e.t, "ViolatesButNpu", Failing(e.c)>>} ELSE {})
  \cup (IF e.observed = "CPU" /\ ~e.unchanged THEN {<<e.t, "CpuNotUnchanged", {}>>} ELSE {})
+ \cup (IF e.observed = "LOST" THEN {<<e.t, "OperatorLost", {}>>} ELSE {})
  \cup (IF x = "NPU" /\ e.observed = "FAIL" THEN {<<e.t, "SatisfiesButFails", {}>>} ELSE {})
  \cup (IF x = "CPU" /\ e.observed = "FAIL" THEN {<<e.t, "ViolatesButFails", Failing(e.c)>>} ELSE {})
 
